@@ -97,7 +97,29 @@ def g2_ties(rng, big=False):
     cands = list(range(1, nc + 1))
     m = rng.choice([1, 1, 2, 3])
     lines = []
-    mode = rng.randint(0, 3)
+    mode = rng.randint(0, 4)
+    if mode == 4 and nc >= 5:
+        # three (or four) candidates level at an exclusion, two of whom shared the lowest tally at the most recent earlier
+        # stage where they differed: an early loser's papers go one each to the two weaker ones
+        grp = rng.sample(cands, rng.choice([3, 3, 4]) if nc >= 6 else 3)
+        rest = [c for c in cands if c not in grp]
+        lo = rest[0]
+        others = rest[1:]
+        b = rng.randint(2, 5)
+        weak = grp[:2]
+        for g in grp:
+            tail = rand_ranking(rng, [x for x in cands if x != g], 0, 2)
+            lines.append((b if g in weak else b + 1, [g] + tail))
+        for g in weak:
+            lines.append((1, [lo, g]))
+        for o in others:
+            lines.append((b + rng.randint(2, 6), [o]))
+        ns = 1 if rng.random() < 0.7 else min(2, nc - 1)
+        s = base(nc, ns, lines, rng)
+        s['family'] = 'G2'
+        return make_valid(s, rng)
+    if mode == 4:
+        mode = 3
     if mode == 0:      # cyclic rotations
         k = rng.randint(1, nc)
         for i in range(nc):
@@ -174,6 +196,60 @@ def g3_quota_boundary(rng, big=False):
     s = base(nc, ns, lines, rng)
     s['family'] = 'G3'
     return make_valid(s, rng)
+
+
+def g3b_exact_hit(rng, P=4, kind='eps', offset=None):
+    """
+    a first-generation surplus transfer that lands exactly on the threshold (or one unit in the last place beside it):
+    X polls v > T; k of X's ballots continue to A at transfer value tv = floor(surplus/v) (P places), and A's own first
+    preferences a are chosen so that a + k*tv == T + offset.  kind 'eps': T = trunc_P(n/(s+1)) + ulp; 'int': T = floor(n/(s+1)) + 1.
+    Returns None when no such coincidence exists for the drawn numbers.
+    """
+    S = 10 ** P
+    for _ in range(300):
+        ns = rng.randint(1, 4)
+        n = rng.randint(12, 700)
+        T = (n * S) // (ns + 1) + 1 if kind == 'eps' else (n // (ns + 1) + 1) * S
+        lo = T // S + 1
+        if lo >= n - 1:
+            continue
+        v = rng.randint(lo, min(n - 1, lo + rng.choice([2, 10, 60, 200])))
+        sp = v * S - T
+        if sp <= 0:
+            continue
+        tv = (sp * S) // (v * S)
+        if tv <= 0:
+            continue
+        off = offset if offset is not None else rng.choice([0, 0, 0, 0, -1, 1])
+        target = T + off
+        ks = [k for k in range(1, v + 1) if target - k * tv >= 0 and (target - k * tv) % S == 0]
+        if not ks:
+            continue
+        k = rng.choice(ks)
+        a = (target - k * tv) // S
+        rest = n - v - a
+        if rest < 0:
+            continue
+        nc = rng.randint(ns + 2, ns + 5)
+        cands = list(range(1, nc + 1))
+        order = rng.sample(cands, nc)
+        X, A = order[0], order[1]
+        others = order[2:]
+        lines = [(k, [X, A] + rng.sample(others, rng.randint(0, 2)))]
+        if v - k:
+            lines.append((v - k, [X] if rng.random() < 0.6 else [X, rng.choice(others)]))
+        if a:
+            lines.append((a, [A] + rng.sample(others, rng.randint(0, 2))))
+        cap = max(1, T // S - 1)
+        while rest > 0:
+            m = rng.randint(1, min(rest, cap))
+            c = rng.choice(others)
+            lines.append((m, [c] + rng.sample([x for x in cands if x != c], rng.randint(0, 2))))
+            rest -= m
+        s = base(nc, ns, lines, rng)
+        s['family'] = 'G3b'
+        return make_valid(s, rng)
+    return None
 
 
 def g4_chains(rng, big=False):
